@@ -119,13 +119,25 @@ def halton_function(ctx: Context) -> None:
     loops = [s for s in f.node.body if isinstance(s, ast.For)]
     ctx.floor("R1", "index loop in halton()", len(loops), 1)
     lp = loops[0]
-    ok = isinstance(lp.iter, ast.Call) and dotted(lp.iter.func) == "range" and len(lp.iter.args) == 2 and isinstance(lp.target, ast.Name)
-    if ok:
-        lo, hi = (n.rat(a) for a in lp.iter.args)
-        ok = lo.equals(n.rat(parse_expr("n_start + 1"))) and hi.equals(n.rat(parse_expr("n_start + sample_size + 1")))
-    ctx.check(ok, "R1.halton-indices", "halton:index-range", "halton() visits the consecutive indices n_start+1 .. n_start+sample_size",
-              f"halton() iterates `{src(lp.iter)}`", f, lp)
-    ix = lp.target.id if isinstance(lp.target, ast.Name) else "index"
+    # the index loop read through its header (`for i in range(a, b)`, `for row, i in enumerate(range(a, b))`, ...): at iteration _I_ (0-based) the
+    # sequence index n_start + 1 + _I_ is expanded and stored in row _I_, for _I_ in range(sample_size)
+    from ..util import IDX, _substitute, loop_binding
+    benv, counts = loop_binding(lp.target, lp.iter)
+
+    def at_iteration(e: ast.expr) -> ast.expr:
+        for nm, v in benv.items():
+            e = _substitute(e, nm, v)
+        return e
+
+    want_index = n.rat(parse_expr(f"n_start + 1 + {IDX}"))
+    index_vars = [nm for nm, v in benv.items() if n.rat(v).equals(want_index)]
+    count_ok = bool(counts) and all(n.rat(c).equals(n.rat(parse_expr("sample_size"))) for c in counts)
+    ctx.check(len(index_vars) == 1 and count_ok, "R1.halton-indices", "halton:index-range", "halton() visits the consecutive indices n_start+1 .. n_start+sample_size",
+              f"halton() iterates `for {src(lp.target)} in {src(lp.iter)}`", f, lp)
+    ix = index_vars[0] if index_vars else (lp.target.id if isinstance(lp.target, ast.Name) else "index")
+    used = any(isinstance(x, ast.Name) and x.id == ix and isinstance(x.ctx, ast.Load) for st in lp.body for x in ast.walk(st)
+               if not (isinstance(st, ast.Assign) and isinstance(st.targets[0], ast.Subscript) and any(x is y for y in ast.walk(st.targets[0]))))
+    ctx.check(used or not index_vars, "R1.halton-indices", "halton:index-used", "the digit expansion starts from the loop's sequence index", f"`{ix}` is not what the loop body expands", f, lp)
     rets0 = returns_of(f)
     out_name = src(rets0[0].value) if rets0 and isinstance(rets0[0].value, ast.Name) else "sequence"
     stores = [s for s in ast.walk(lp) if isinstance(s, ast.Assign) and isinstance(s.targets[0], ast.Subscript) and src(s.targets[0].value) == out_name]
@@ -133,7 +145,7 @@ def halton_function(ctx: Context) -> None:
     if ok:
         sl = stores[0].targets[0].slice
         row = sl.elts[0] if isinstance(sl, ast.Tuple) else sl
-        ok = n.rat(row).equals(n.rat(parse_expr(f"{ix} - 1 - n_start")))
+        ok = n.rat(at_iteration(row)).equals(n.rat(parse_expr(IDX)))
     ctx.check(ok, "R1.halton-indices", "halton:row-of-index", "index i is stored in row i-1-n_start (no gap, no overlap)",
               f"row store is `{src(stores[0]) if stores else '?'}`", f, stores[0] if stores else lp)
     # The digit loop must be driven by the running quotient itself: it stops when the quotient is exhausted, whatever the index.  A loop bounded by a
